@@ -1,8 +1,72 @@
 from orchestrate.common import run_check
 
 def _nontrivial(ln):
-    # everything except OPTIONS (empty body) is a non-trivial encoding
-    return not ln.startswith("O ")
+    # everything except OPTIONS (empty body) and scenarios that could not run is a non-trivial encoding
+    return not ln.startswith("O ") and "| skip-env" not in ln and "| skipped" not in ln
+
+def _kind(lines, k):
+    return [ln for ln in lines if ln.startswith(k + " ")]
+
+def _case(ln):
+    return ln.split("|", 1)[0]
+
+def post(lines, verdicts):
+    out = []
+    tier_thorough = len(lines) > 150000
+    # scenarios that did not run: counted, capped (never silently ok)
+    n = _kind(lines, "N")
+    sk = [ln for ln in n if "| skip-env" in ln]
+    if len(sk) > max(2, len(n) // 20):
+        out.append(("diff", sk[0][:300], "diff e2e tie not exercised: %d of %d N scenarios could not run (%s)"
+                    % (len(sk), len(n), sk[0].split("|", 1)[1].strip()[:100])))
+    for ln in _kind(lines, "L"):
+        if "| skipped" in ln:
+            print("WARNING: C09 case `%s` was SKIPPED (not enough free memory): the real 4 GiB body is not tied in "
+                  "this run; the 2^32 boundary is still tied by the M cases" % _case(ln).strip())
+    # per-kind floors: what the evidence claims must really have been exercised
+    floors = {"Q": 8000, "E": 7000, "B": 7000, "P": 1000, "S": 1000, "R": 1000, "A": 800, "O": 100, "M": 18, "N": 30}
+    for k, fl in floors.items():
+        have = [ln for ln in _kind(lines, k) if "| skip-env" not in ln]
+        if len(have) < fl:
+            out.append(("diff", k, "diff tie not exercised: %d cases of kind %s, floor %d" % (len(have), k, fl)))
+    b = _kind(lines, "B")
+    modes = {"c": 0, "v": 0, "a": 0}
+    for ln in b:
+        f = ln.split(" ", 4)
+        if len(f) > 3 and f[3] in modes:
+            modes[f[3]] += 1
+    for m, fl in (("c", 1500), ("v", 1500), ("a", 1500)):
+        if modes[m] < fl:
+            out.append(("diff", "B", "diff tie not exercised: %d BATCH cases in mode %s, floor %d" % (modes[m], m, fl)))
+    # surplus / missing value lists through the driver's own RawBatchValuesAdapter must have been refused
+    adapter_mism = [ln for ln in b if ln.split(" ", 4)[3:4] == ["a"] and "| err batch-mismatch" in ln]
+    surplus = [ln for ln in adapter_mism if int(ln.rsplit(" ", 2)[1], 16) > int(ln.rsplit(" ", 2)[2], 16)]
+    if len(surplus) < 20 or len(adapter_mism) - len(surplus) < 20:
+        out.append(("diff", "B", "diff tie not exercised: adapter-mode batches refused for surplus/missing value lists: %d/%d, floor 20 each"
+                    % (len(surplus), len(adapter_mism) - len(surplus))))
+    for want in ("err body-too-long", "len ffffffff ffffffff", "err snap"):
+        if not [ln for ln in _kind(lines, "M") if "| " + want in ln]:
+            out.append(("diff", "M", "diff tie not exercised: no M case observed `%s`" % want))
+    comp = {"n": 0, "l": 0, "s": 0}
+    for ln in lines:
+        f = ln.split(" ", 3)
+        if len(f) > 1 and f[1] in comp and f[0] in "QEBPSRAO":
+            comp[f[1]] += 1
+    for c, fl in (("n", 15000), ("l", 5000), ("s", 5000)):
+        if comp[c] < fl:
+            out.append(("diff", c, "diff tie not exercised: %d cases with compression %s, floor %d" % (comp[c], c, fl)))
+    refused = sum(1 for ln in lines if "| err " in ln)
+    if refused < 1000:
+        out.append(("diff", "err", "diff tie not exercised: only %d refusals observed, floor 1000" % refused))
+    # e2e: every opcode and both extension settings must have been seen
+    ok_n = [ln for ln in n if "| e2e " in ln]
+    for tag in ("Q/", "E/2/", "B/c/"):
+        if sum(ln.count(" " + tag) for ln in ok_n) < 30:
+            out.append(("diff", "N", "diff tie not exercised: fewer than 30 session-level %s frames" % tag))
+    for ext in ("0", "1"):
+        if not [ln for ln in ok_n if "| e2e " + ext + " " in ln]:
+            out.append(("diff", "N", "diff tie not exercised: no e2e scenario with metadata-id extension = " + ext))
+    return out
 
 def _extra(lines, verdicts):
     comp = {"n": 0, "l": 0, "s": 0}
@@ -16,8 +80,16 @@ def _extra(lines, verdicts):
             refused += 1
         if len(ln) > 100000:
             big += 1
+    n = _kind(lines, "N")
+    b = _kind(lines, "B")
     return {"compression_histogram": {"none": comp["n"], "lz4": comp["l"], "snappy": comp["s"]},
-            "refused_by_implementation": refused, "cases_over_100k_chars": big}
+            "refused_by_implementation": refused, "cases_over_100k_chars": big,
+            "batch_modes": {m: sum(1 for ln in b if ln.split(" ", 4)[3:4] == [m]) for m in ("c", "v", "a")},
+            "e2e_scenarios": len(n), "e2e_scenarios_not_run_env": sum(1 for ln in n if "| skip-env" in ln),
+            "e2e_session_frames_checked": sum(ln.count(":04") for ln in n if "| e2e " in ln),
+            "L_cases_skipped_for_memory": sum(1 for ln in _kind(lines, "L") if "| skipped" in ln),
+            "L_cases_run": sum(1 for ln in _kind(lines, "L") if "| skipped" not in ln),
+            "set_stream_calls_checked": sum(1 for ln in lines if "| ok " in ln)}
 
 SPEC = {
     "pid": "C09",
@@ -35,9 +107,15 @@ SPEC = {
              "snappy 20%; tracing 1/3.  Comparison: byte equality of SerializedRequest::make(..).get_data() with the "
              "extracted encode_request (for compressed frames with the real compressor's output as codec oracle, and "
              "real decompress(real body) == model's uncompressed body); refusals: same error class.  "
-             "non-trivial = every case except OPTIONS; distinct = distinct case lines"),
+             "every ok case also calls set_stream(s) and compares the frame after; batch mode a = RawBatchValuesAdapter "
+             "(BatchValues + one context per statement, as the driver); M = make() of a body of untouched zero bytes at "
+             "the 2^32 boundary (sizes only); N = e2e: real Session against mocknode, 10 session-level calls per scenario, "
+             "captured frames parsed by the extracted independent parser; L (thorough) = real 4 GiB batch body.  "
+             "non-trivial = every case except OPTIONS and not-run scenarios; distinct = distinct case lines"),
     "nontrivial": _nontrivial,
     "extra_coverage": _extra,
+    "post": post,
+    "min_cases": {"quick": 38000, "thorough": 280000},
     "trusted_base": [
         "Model/Request.v PART 2 (parse_frame / p_request) is the specification: transcribed by hand from the CQL binary protocol v4 document sections 2, 3, 4.1.1-4.1.8, 5 and ScyllaDB's result-metadata-id extension of EXECUTE",
         "strings are modelled as their UTF-8 bytes (validity is a Rust type invariant, not modelled)",
